@@ -29,6 +29,9 @@ pub struct SchedCfg {
     /// only mutating calls on these classes get ambiguous faults (empty = all)
     pub amb_classes: Vec<PathClass>,
     pub max_decisions: u64,
+    /// probability that further parked calls are released in the same step, i.e. several
+    /// responses arrive before any party runs again (completions observed in one poll)
+    pub p_burst: f64,
 }
 
 impl Default for SchedCfg {
@@ -43,6 +46,7 @@ impl Default for SchedCfg {
             fault_actors: vec![],
             amb_classes: vec![],
             max_decisions: 200_000,
+            p_burst: 0.15,
         }
     }
 }
@@ -117,31 +121,48 @@ pub async fn drive<T: Send + 'static>(
         if acts.len() >= 2 {
             out.overlapped = true;
         }
-        let a = match last {
-            Some(l) if acts.contains(&l) && rng.chance(cfg.p_stick) => l,
-            _ => *rng.pick(&acts),
-        };
-        last = Some(a);
-        let mut calls: Vec<&ParkedInfo> = parked.iter().filter(|p| p.actor == a).collect();
-        calls.sort_by_key(|p| p.id);
-        let call = if calls.len() > 1 && rng.chance(cfg.p_reorder) { calls[rng.usize(calls.len())] } else { calls[0] };
-        let mut d = Decision::Proceed;
-        if budget > 0 && !cfg.faults.is_empty() && (cfg.fault_actors.is_empty() || cfg.fault_actors.contains(&a)) && rng.chance(cfg.p_fault) {
-            let cand = *rng.pick(&cfg.faults);
-            let class_ok = cfg.amb_classes.is_empty() || !matches!(cand, Decision::FailPost | Decision::Dup) || cfg.amb_classes.contains(&path_class(&call.path)) || matches!(call.kind, CallKind::ExtPutIfNotExists | CallKind::ExtPutIfExists | CallKind::ExtGetLatest);
-            if fault_applicable(cand, call.kind) && class_ok {
-                d = cand;
-                budget -= 1;
-                out.faults_fired += 1;
+        let mut released: BTreeSet<u64> = BTreeSet::new();
+        let mut burst_left = if rng.chance(cfg.p_burst) { rng.range(1, 3) as usize } else { 0 };
+        loop {
+            let avail: Vec<&ParkedInfo> = parked.iter().filter(|p| !released.contains(&p.id)).collect();
+            if avail.is_empty() {
+                break;
             }
+            let mut acts: Vec<ActorId> = avail.iter().map(|p| p.actor).collect();
+            acts.sort();
+            acts.dedup();
+            let a = match last {
+                Some(l) if acts.contains(&l) && rng.chance(cfg.p_stick) => l,
+                _ => *rng.pick(&acts),
+            };
+            last = Some(a);
+            let mut calls: Vec<&ParkedInfo> = avail.iter().filter(|p| p.actor == a).cloned().collect();
+            calls.sort_by_key(|p| p.id);
+            let call = if calls.len() > 1 && rng.chance(cfg.p_reorder) { calls[rng.usize(calls.len())] } else { calls[0] };
+            let mut d = Decision::Proceed;
+            if budget > 0 && !cfg.faults.is_empty() && (cfg.fault_actors.is_empty() || cfg.fault_actors.contains(&a)) && rng.chance(cfg.p_fault) {
+                let cand = *rng.pick(&cfg.faults);
+                let class_ok = cfg.amb_classes.is_empty() || !matches!(cand, Decision::FailPost | Decision::Dup) || cfg.amb_classes.contains(&path_class(&call.path)) || matches!(call.kind, CallKind::ExtPutIfNotExists | CallKind::ExtPutIfExists | CallKind::ExtGetLatest);
+                if fault_applicable(cand, call.kind) && class_ok {
+                    d = cand;
+                    budget -= 1;
+                    out.faults_fired += 1;
+                }
+            }
+            let item = format!("a{}:{}:{:?}:{}", a, call.kind.short(), path_class(&call.path), d.short());
+            h = mix(&[h, hash_str(&item)]);
+            if keep_trace {
+                out.trace.push(format!("a{}#{} {} {} {}{}", a, call.seq, call.kind.short(), call.path, d.short(), if released.is_empty() { "" } else { " (same step)" }));
+            }
+            w.release(call.id, d);
+            released.insert(call.id);
+            out.decisions += 1;
+            // a crash decision ends the step: the party is dead
+            if burst_left == 0 || matches!(d, Decision::CrashPre | Decision::CrashPost) {
+                break;
+            }
+            burst_left -= 1;
         }
-        let item = format!("a{}:{}:{:?}:{}", a, call.kind.short(), path_class(&call.path), d.short());
-        h = mix(&[h, hash_str(&item)]);
-        if keep_trace {
-            out.trace.push(format!("a{}#{} {} {} {}", a, call.seq, call.kind.short(), call.path, d.short()));
-        }
-        w.release(call.id, d);
-        out.decisions += 1;
         if out.decisions > cfg.max_decisions {
             out.stuck = true;
             break;
